@@ -471,15 +471,16 @@ theorem delIdx?_last {β : Type} (L : List β) (x : β) : delIdx? (L ++ [x]) (-1
   simp [List.eraseIdx_append_of_length_le]
 
 /-- the loop `while ded and ded[-1][0] >= len(items): del ded[-1]` -/
-theorem dead_loop {σ ρ : Type} (H : σ → Heap α Unit) (D : σ → List (Val α Unit)) (N : σ → Int)
+theorem dead_loop {σ ρ φ : Type} (H : σ → Heap α Unit) (D : σ → List (Val α Unit)) (N : σ → Int) (frame : σ → φ)
     (c : σ → Except PyExc Bool) (body : Stmt σ ρ)
     (hc : ∀ t, c t = andE (.ok (!(D t).isEmpty)) (bx (bx (PyRt.index? (D t) (-1)) (fun v => Heap.get? (H t) v 0))
       (fun v7 => bx (asInt? v7) (fun v8 => .ok (decide (v8 ≥ N t))))))
-    (hb : ∀ t L x, D t = L ++ [x] → ∃ t', body t = (.next, t') ∧ D t' = L ∧ H t' = H t ∧ N t' = N t) (n : Nat) :
+    (hb : ∀ t L x, D t = L ++ [x] → ∃ t', body t = (.next, t') ∧ D t' = L ∧ H t' = H t ∧ N t' = N t ∧ frame t' = frame t)
+    (n : Nat) :
     ∀ (fuel : Nat) (addrs : List Nat) (dead : List (Nat × Nat)) (t : σ), D t = addrs.map Val.ref →
       addrs.map (H t).cell = dead.map ivCell → N t = (n : Int) → dead.length < fuel →
       ∃ t' m, whileLoop c body fuel t = (.next, t') ∧ D t' = (addrs.take m).map Val.ref ∧ m ≤ dead.length ∧
-        popDeadFrom dead n = dead.take m ∧ H t' = H t ∧ N t' = N t := by
+        popDeadFrom dead n = dead.take m ∧ H t' = H t ∧ N t' = N t ∧ frame t' = frame t := by
   intro fuel
   induction fuel with
   | zero => intro _ _ _ _ _ _ h; omega
@@ -489,7 +490,7 @@ theorem dead_loop {σ ρ : Type} (H : σ → Heap α Unit) (D : σ → List (Val
     rcases nil_or_snoc addrs with rfl | ⟨A, a, rfl⟩
     · have : dead = [] := by cases dead with | nil => rfl | cons _ _ => simp at hlen
       subst this
-      refine ⟨t, 0, ?_, by simpa using hD, Nat.le_refl _, by simp [popDeadFrom], rfl, rfl⟩
+      refine ⟨t, 0, ?_, by simpa using hD, Nat.le_refl _, by simp [popDeadFrom], rfl, rfl, rfl⟩
       simp [whileLoop, hc, hD, andE]
     · rcases nil_or_snoc dead with rfl | ⟨d', p, rfl⟩
       · simp at hlen
@@ -506,17 +507,24 @@ theorem dead_loop {σ ρ : Type} (H : σ → Heap α Unit) (D : σ → List (Val
           simp only [andE, hne, Bool.not_false, bx_ok, if_true, index?_last, Heap.get?, hca, ivCell, hN, hi0, asInt?]
           simp
         by_cases hge : n ≤ p.1
-        · obtain ⟨t1, hb1, hb2, hb3, hb4⟩ := hb t _ _ hD
-          obtain ⟨t', m, h1, h2, h3, h4, h5, h6⟩ := ih A d' t1 hb2 (by rw [hb3]; exact hc1) (by rw [hb4, hN])
+        · obtain ⟨t1, hb1, hb2, hb3, hb4, hb5⟩ := hb t _ _ hD
+          obtain ⟨t', m, h1, h2, h3, h4, h5, h6, h7⟩ := ih A d' t1 hb2 (by rw [hb3]; exact hc1) (by rw [hb4, hN])
             (by simp at hf; omega)
-          refine ⟨t', m, ?_, ?_, by simp; omega, ?_, h5.trans hb3, h6.trans hb4⟩
+          refine ⟨t', m, ?_, ?_, by simp; omega, ?_, h5.trans hb3, h6.trans hb4, h7.trans hb5⟩
           · simp [whileLoop, hcond, hge, hb1, h1]
           · rw [h2, List.take_append_of_le_length (by simp at hlen; omega)]
           · rw [popDeadFrom_snoc, if_pos hge, h4, List.take_append_of_le_length h3]
-        · refine ⟨t, (d' ++ [p]).length, ?_, ?_, Nat.le_refl _, ?_, rfl, rfl⟩
+        · refine ⟨t, (d' ++ [p]).length, ?_, ?_, Nat.le_refl _, ?_, rfl, rfl, rfl⟩
           · simp [whileLoop, hcond, hge]
           · rw [hD, ← hlen, ← List.map_singleton (f := Val.ref), ← List.map_append, List.take_length]
           · rw [popDeadFrom_snoc, if_neg hge, List.take_length]
+
+/-- a prefix of a represented table is represented (what the loop of `_cull` leaves) -/
+theorem RepDead.take {h : Heap α Unit} {addrs : List Nat} {dead : List (Nat × Nat)} (hnd : addrs.Nodup)
+    (hc : addrs.map h.cell = dead.map ivCell) (m : Nat) :
+    RepDead h ((addrs.take m).map Val.ref) (dead.take m) := by
+  refine ⟨addrs.take m, rfl, hnd.sublist (List.take_sublist _ _), ?_⟩
+  rw [List.map_take, List.map_take, hc]
 
 end RepSec
 
